@@ -7,7 +7,7 @@ RULE = ("families (M, M') where the Coq judge first verifies that M' is the stat
         "then checks the relation between the ten verdicts (TU, regular, graphic, cographic, network, conetwork, SP ternary/binary, "
         "balanced, Camion-signed) of M and M': equal, swapped under transposition (graphic/cographic, network/conetwork), or yes => "
         "yes for submatrices; seeds: network matrices of 10-120 arcs, R10/R12/F7 and 1-/2-sums thereof, with and without a random "
-        "corruption, random sparse matrices; all five decomposition strategies; non-trivial = distinct pair with >= 3 rows and columns")
+        "corruption, random sparse matrices; all five decomposition strategies, and for matrices up to 8x8 also the Eulerian and the partition TU algorithm; non-trivial = distinct pair with >= 3 rows and columns")
 CODES = {1: "malformed record", 400: "generator produced a pair that is not the stated transform (harness defect)",
          401: "verdict changes under a row/column permutation", 402: "verdict changes under +-1 scaling of lines",
          403: "verdicts not preserved / swapped under transposition", 404: "verdict changes when a zero/unit/duplicate line is added",
@@ -60,6 +60,8 @@ def run(ctx):
             M = seed(rng, big=(it % 6 == 0))
         m, n = len(M), len(M[0])
         strat = rng.choice(strategies)
+        if m <= 8 and n <= 8 and rng.below(3) == 0:
+            strat = 1000 + rng.choice([1, 2])     # first verdict by the Eulerian / Ghouila-Houri algorithm instead
         for _ in range(2 if q else 4):
             kind = rng.choice([1, 1, 2, 3, 4, 4, 5, 6, 7])
             if kind == 1:
